@@ -6,6 +6,7 @@
 
 mod alloc;
 mod attack;
+mod conn;
 mod control;
 mod disthdr;
 mod edges;
@@ -51,6 +52,9 @@ fn main() {
         "rpc-run" => rpc::run(rest),
         "inbound-run" => inbound::run(rest),
         "localproc-run" => localproc::run(rest),
+        "conn-send" => conn::run_send(rest),
+        "conn-conc" => conn::run_conc(rest),
+        "conn-recv" => conn::run_recv(rest),
         other => {
             eprintln!("unknown subcommand {other}");
             2
